@@ -653,9 +653,12 @@ fn node_load(kind: Kind, cache: AnyCache, id: &SharedString) -> Result<String, B
 }
 
 /// Values embed the values they looked up; with look-up cycles they would grow without bound.
+/// A capped value stands for its tracked part only: what was read inside no_record / thread / other-cache
+/// blocks may legitimately lag behind and is never compared (see `strip_untracked`).
 pub fn cap_value(v: String) -> String {
     if v.len() > 3000 {
-        format!("#{:016x}/{}", crate::engine::fnv(&v), v.len())
+        let tracked = crate::props::hot::strip_untracked(&v);
+        format!("#{:016x}/{}", crate::engine::fnv(&tracked), tracked.len())
     } else {
         v
     }
